@@ -1306,7 +1306,7 @@ func ruleClientResponseShape(p *Prog, r *Out) {
 			return true
 		})
 		for _, s := range loop.Body.List {
-			if as, ok := s.(*ast.AssignStmt); ok && p.text(as.Lhs[0]) == "regularSeen" && p.text(as.Rhs[0]) == "true" {
+			if as, ok := s.(*ast.AssignStmt); ok && (p.text(as.Lhs[0]) == "regularSeen" || squash(p.text(as.Lhs[0])) == "c.block.regularSeen") && p.text(as.Rhs[0]) == "true" {
 				regular = true
 			}
 		}
@@ -1710,7 +1710,7 @@ func ruleNoPhantomField(p *Prog, r *Out) {
 			if fs, ok := n.(*ast.ForStmt); ok && loop == nil {
 				dec := false
 				inspectCalls(fs.Body, func(c *ast.CallExpr) {
-					if nm := p.calleeOf(c); nm == "(*HPACK).nextField" || nm == "(*HPACK).Next" {
+					if nm := p.calleeOf(c); nm == "(*HPACK).nextField" || nm == "(*HPACK).Next" || nm == "(*Conn).nextField" {
 						dec = true
 					}
 				})
@@ -1729,7 +1729,7 @@ func ruleNoPhantomField(p *Prog, r *Out) {
 		for i, s := range loop.Body.List {
 			isDec := false
 			inspectCalls(s, func(c *ast.CallExpr) {
-				if nm := p.calleeOf(c); nm == "(*HPACK).nextField" || nm == "(*HPACK).Next" {
+				if nm := p.calleeOf(c); nm == "(*HPACK).nextField" || nm == "(*HPACK).Next" || nm == "(*Conn).nextField" {
 					isDec = true
 				}
 			})
@@ -2266,6 +2266,11 @@ func ruleLateAndGraceful(p *Prog, r *Out) {
 			}
 			return true
 		})
+		// or through the connection's block state: skipFields is a loop over the
+		// whole fragment (client-block-state)
+		if okBlock, _ := p.clientBlockOK(); okBlock && hasStmt(p, sk.Body.List, "b:=c.block.open(fr)") && hasStmt(p, sk.Body.List, "err:=c.skipFields(fr,b,nil)") {
+			loops = true
+		}
 		guard := false
 		if len(sk.Body.List) > 0 {
 			if ifs, ok := sk.Body.List[0].(*ast.IfStmt); ok && p.isConjunctionOf(ifs.Cond, "fr.Type()!=FrameHeaders", "fr.Type()!=FrameContinuation") {
